@@ -108,6 +108,26 @@ theorem specRead_cur (a : Abs) (k : Nat) :
   · exact ⟨Nat.le_refl _, rfl⟩
   · exact ⟨Nat.le_add_right _ _, rfl⟩
 
+/-- common part of the simulation of an operation that refines a specification function `f` on `Abs` and whose effect on
+    the anchor record is `X` / `a0` -/
+theorem sim_of_refinesX {P : Nat} {a a0 : AState} {s s' : Sess} {o : Out} {spec : St × Bytes × Abs} {lp : Option Nat}
+    {X : Option Nat} (r : R P a s) (wf : WF s'.b) (pg : PG s'.b) (k : KeepX X s.b s'.b) (aok : AnchOK s'.b)
+    (hX : s.b.hasfp = true → X = a0.anchor) (hXn : s.b.hasfp = false → X = none)
+    (h0src : a0.src = a.src) (hsub : ∀ A, a0.anchor = some A → a.anchor = some A)
+    (hnan : a0.anchor ≠ none → a0.nanchor = a.nanchor)
+    (e : (o.st, o.bytes, s'.b.abs) = spec)
+    (hc : a.cur ≤ spec.2.2.cur ∧ spec.2.2.src = a.src)
+    (hlp : s'.lastp.map (s'.b.base + ·) = lp) (hlple : ∀ p, lp = some p → a.cur ≤ p ∧ p ≤ spec.2.2.cur) :
+    (⟨o.st, o.bytes, s'.b.base + s'.b.pos⟩ : Obs) = ⟨spec.1, spec.2.1, spec.2.2.cur⟩ ∧
+    R P { a0 with cur := spec.2.2.cur, lastp := lp } s' := by
+  have e1 : o.st = spec.1 := congrArg Prod.fst e
+  have e2 : o.bytes = spec.2.1 := congrArg (fun x => x.2.1) e
+  have e3 : s'.b.abs = spec.2.2 := congrArg (fun x => x.2.2) e
+  have e4 : s'.b.base + s'.b.pos = spec.2.2.cur := by rw [← e3]; rfl
+  refine ⟨by rw [e1, e2, e4], ?_⟩
+  exact r.of_keepX (a' := { a0 with cur := spec.2.2.cur, lastp := lp }) wf pg k aok hX hXn h0src hsub hnan e4 hlp
+    (fun p hp => (hlple p hp).2)
+
 /-- common part of the simulation of an operation that refines a specification function `f` on `Abs` and keeps the
     anchor record -/
 theorem sim_of_refines {P : Nat} {a : AState} {s s' : Sess} {o : Out} {spec : St × Bytes × Abs} {lp : Option Nat}
@@ -116,24 +136,46 @@ theorem sim_of_refines {P : Nat} {a : AState} {s s' : Sess} {o : Out} {spec : St
     (hc : a.cur ≤ spec.2.2.cur ∧ spec.2.2.src = a.src)
     (hlp : s'.lastp.map (s'.b.base + ·) = lp) (hlple : ∀ p, lp = some p → a.cur ≤ p ∧ p ≤ spec.2.2.cur) :
     (⟨o.st, o.bytes, s'.b.base + s'.b.pos⟩ : Obs) = ⟨spec.1, spec.2.1, spec.2.2.cur⟩ ∧
-    R P { a with cur := spec.2.2.cur, lastp := lp } s' := by
-  have e1 : o.st = spec.1 := congrArg Prod.fst e
-  have e2 : o.bytes = spec.2.1 := congrArg (fun x => x.2.1) e
-  have e3 : s'.b.abs = spec.2.2 := congrArg (fun x => x.2.2) e
-  have e4 : s'.b.base + s'.b.pos = spec.2.2.cur := by rw [← e3]; rfl
-  refine ⟨by rw [e1, e2, e4], ?_⟩
-  exact r.of_keepA (a' := { a with cur := spec.2.2.cur, lastp := lp }) wf pg k aok rfl rfl rfl e4 hc.1 hlp hlple
+    R P { a with cur := spec.2.2.cur, lastp := lp } s' :=
+  sim_of_refinesX (a0 := a) r wf pg k.toKeepX aok (fun hf => (r.anch hf).1)
+    (fun hf => (absAnchor_eq_none s.b).mpr (r.nfa hf)) rfl (fun _ h => h) (fun _ => rfl) e hc hlp hlple
+
+/-- the anchor record that the bracket at offset `base + p` leaves, model and specification side -/
+theorem R.brk_at {P : Nat} {a : AState} {s : Sess} (r : R P a s) (b : Buf) (hb : b.absAnchor = s.b.absAnchor)
+    (hf : s.b.hasfp = true) : b.brkAnchor = (aBrk a (b.base + b.pos)).anchor := by
+  have h1 := (r.anch hf).1
+  rw [← hb] at h1
+  cases hba : b.anchor with
+  | none =>
+    have ha : a.anchor = none := by rw [← h1]; simp [Buf.absAnchor, hba]
+    simp only [Buf.brkAnchor, aBrk, hba, ha]
+  | some x =>
+    have ha : a.anchor = some (b.base + x) := by rw [← h1]; simp [Buf.absAnchor, hba]
+    simp only [Buf.brkAnchor, aBrk, hba, ha]
+    by_cases hle : x ≤ b.pos
+    · rw [if_pos hle, if_pos (by omega)]; exact ha.symm
+    · rw [if_neg hle, if_neg (by omega)]
+
+theorem brkAnchor_nofp {b : Buf} (h : b.anchor = none) : b.brkAnchor = none := by
+  unfold Buf.brkAnchor; rw [h]
+
+theorem aBrk_nanchor (a : AState) (t : Nat) (h : (aBrk a t).anchor ≠ none) : (aBrk a t).nanchor = a.nanchor := by
+  cases hA : (aBrk a t).anchor with
+  | none => exact absurd hA h
+  | some A => exact (aBrk_sub a t A hA).2.2
 
 theorem sim_getLine (P : Nat) : SimStep P .getLine := by
   intro a s r _
   obtain ⟨w, e, _, pg⟩ := getLine_refines s.b r.wf (r.pg.loaded r.wf)
   rw [r.abs_eq] at e
-  obtain ⟨k, ok⟩ := getLine_keep s.b r.wf r.aok r.nfa
+  obtain ⟨k, ok⟩ := getLine_keepX s.b r.wf r.aok r.nfa
   obtain ⟨p1, p2⟩ := getLine_p s.b r.wf (r.pg.loaded r.wf)
   have hc := specGetLine_cur a.abs
   have e1 : (getLine s.b).1.st = (specGetLine a.abs).1 := congrArg Prod.fst e
-  refine sim_of_refines (s' := (s.step .getLine).2) (o := (getLine s.b).1) (spec := specGetLine a.abs)
-    (lp := if (specGetLine a.abs).1 = .ok then some a.cur else none) r w pg k ok e hc ?_ ?_
+  refine sim_of_refinesX (a0 := aBrk a a.cur) (s' := (s.step .getLine).2) (o := (getLine s.b).1) (spec := specGetLine a.abs)
+    (lp := if (specGetLine a.abs).1 = .ok then some a.cur else none) r w pg k ok
+    (fun hf => by rw [← r.cur]; exact r.brk_at s.b rfl hf) (fun hf => brkAnchor_nofp (r.nfa hf)) (aBrk_src a _)
+    (fun A hA => (aBrk_sub a _ A hA).1) (aBrk_nanchor a _) e hc ?_ ?_
   · show ((getLine s.b).1.p).map ((getLine s.b).2.base + ·) = _
     by_cases hok : (specGetLine a.abs).1 = .ok
     · rw [if_pos hok]
@@ -151,17 +193,19 @@ theorem sim_fetchLine_gen (P : Nat) (asStr : Bool) (op : Op) (hop : op = .fetchL
   intro a s r _
   obtain ⟨w, e, _, pg, _⟩ := fetchLine_refines s.b asStr r.wf (r.pg.loaded r.wf)
   rw [r.abs_eq] at e
-  obtain ⟨k, ok⟩ := fetchLine_keep s.b asStr r.wf r.aok r.nfa
+  obtain ⟨k, ok⟩ := fetchLine_keepX s.b asStr r.wf r.aok r.nfa
   have hc := specGetLine_cur a.abs
   have hb : (s.step op).2.b = (fetchLine s.b asStr).2 := by rw [step_b, hrun]
   have hl : (s.step op).2.lastp = none := by rw [step_lastp, hrun]; exact fetchLine_p s.b asStr
   have ho : (s.step op).1 = (fetchLine s.b asStr).1 := by rw [step_out, hrun]
   have hne : op ≠ .get := by rcases hop with h | h <;> rw [h] <;> intro hh <;> cases hh
-  have := sim_of_refines (s' := (s.step op).2) (o := (fetchLine s.b asStr).1) (spec := specGetLine a.abs) (lp := none)
-    r (by rw [hb]; exact w) (by rw [hb]; exact pg) (by rw [hb]; exact k) (by rw [hb]; exact ok) (by rw [hb]; exact e) hc
+  have := sim_of_refinesX (a0 := aBrk a a.cur) (s' := (s.step op).2) (o := (fetchLine s.b asStr).1) (spec := specGetLine a.abs) (lp := none)
+    r (by rw [hb]; exact w) (by rw [hb]; exact pg) (by rw [hb]; exact k) (by rw [hb]; exact ok)
+    (fun hf => by rw [← r.cur]; exact r.brk_at s.b rfl hf) (fun hf => brkAnchor_nofp (r.nfa hf)) (aBrk_src a _)
+    (fun A hA => (aBrk_sub a _ A hA).1) (aBrk_nanchor a _) (by rw [hb]; exact e) hc
     (by rw [hl]; rfl) (fun p hp => by cases hp)
   have hspec : specStep a op = (⟨(specGetLine a.abs).1, (specGetLine a.abs).2.1, (specGetLine a.abs).2.2.cur⟩,
-      { a with cur := (specGetLine a.abs).2.2.cur, lastp := none }) := by
+      { aBrk a a.cur with cur := (specGetLine a.abs).2.2.cur, lastp := none }) := by
     rcases hop with h | h <;> rw [h] <;> rfl
   rw [hspec]
   refine ⟨?_, this.2⟩
